@@ -52,6 +52,7 @@ import (
 	"github.com/bronlabs/bron-crypto/pkg/base/curves/pasta"
 	"github.com/bronlabs/bron-crypto/pkg/mpc"
 	"github.com/bronlabs/bron-crypto/pkg/mpc/sharing"
+	"github.com/bronlabs/bron-crypto/pkg/mpc/sharing/accessstructures"
 	"github.com/bronlabs/bron-crypto/pkg/mpc/sharing/scheme/kw"
 	"github.com/bronlabs/bron-crypto/pkg/mpc/sharing/vss/feldman"
 	"github.com/bronlabs/bron-crypto/pkg/proofs/sigma/compiler"
@@ -77,10 +78,15 @@ type caseSpec struct {
 	comp  string // NIZK compiler (gennaro), "-" otherwise
 	idx   int
 	mode  string // rounds | runner
+	via   string // "-" | "cnf": every party converts its object with cnf.ConvertToCNF
 }
 
 func (c caseSpec) text() string {
-	return fmt.Sprintf("proto=%s group=%s pol=%s comp=%s idx=%d mode=%s", c.proto, c.group, c.pol.text(), c.comp, c.idx, c.mode)
+	via := c.via
+	if via == "" {
+		via = "-"
+	}
+	return fmt.Sprintf("proto=%s group=%s pol=%s comp=%s idx=%d mode=%s via=%s", c.proto, c.group, c.pol.text(), c.comp, c.idx, c.mode, via)
 }
 
 func parseCase(s string) (caseSpec, error) {
@@ -103,6 +109,8 @@ func parseCase(s string) (caseSpec, error) {
 			c.idx, _ = strconv.Atoi(kv[1])
 		case "mode":
 			c.mode = kv[1]
+		case "via":
+			c.via = kv[1]
 		}
 	}
 	if c.proto == "" || c.group == "" || c.mode == "" {
@@ -236,15 +244,41 @@ func r1reads(t *drive.Tape) [][]byte {
 	return out
 }
 
+// partyACs builds every party's own access-structure object (see policy.buildFor); index 0 is the
+// canonical object the harness itself uses. The text lists the per-party clause permutations.
+func partyACs(a vh.Args, cs caseSpec) (canon accessstructures.Monotone, acs map[sharing.ID]accessstructures.Monotone, perms string, err error) {
+	canon, _, err = cs.pol.buildFor(vh.NewRng(a.Seed, "C03", "acperm", -1), cs.via)
+	if err != nil {
+		return nil, nil, "", err
+	}
+	if cs.via != "cnf" {
+		if canon, err = cs.pol.build(); err != nil {
+			return nil, nil, "", err
+		}
+	}
+	acs = map[sharing.ID]accessstructures.Monotone{}
+	var parts []string
+	for _, h := range append([]uint64{0}, cs.pol.holders()...) { // 0 = the trusted dealer
+		r := vh.NewRng(a.Seed, cs.prop(), "acperm", int(h))
+		ac, perm, e := cs.pol.buildFor(r, cs.via)
+		if e != nil {
+			return nil, nil, "", e
+		}
+		acs[sharing.ID(h)] = ac
+		parts = append(parts, fmt.Sprintf("%d:%s", h, perm))
+	}
+	return canon, acs, strings.Join(parts, ";"), nil
+}
+
 func execute[E algebra.PrimeGroupElement[E, S], S algebra.PrimeFieldElement[S]](a vh.Args, g algebra.PrimeGroup[E, S], cs caseSpec, acPol policy) (*runData[E, S], error) {
-	ac, err := acPol.build()
+	ac, acs, _, err := partyACs(a, cs)
 	if err != nil {
 		return nil, err
 	}
 	rd := &runData[E, S]{tapes: map[sharing.ID][][]byte{}}
 	switch cs.proto {
 	case "G":
-		cfg := dgen.Config[E, S]{Seed: a.Seed, Prop: cs.prop(), Group: g, AC: ac, Compiler: compilerOf(cs.comp)}
+		cfg := dgen.Config[E, S]{Seed: a.Seed, Prop: cs.prop(), Group: g, AC: ac, ACs: acs, Compiler: compilerOf(cs.comp)}
 		var res *dgen.Result[E, S]
 		if cs.mode == "runner" {
 			res = gennaroRunner(cfg)
@@ -260,7 +294,7 @@ func execute[E algebra.PrimeGroupElement[E, S], S algebra.PrimeFieldElement[S]](
 			rd.tapes[id] = r1reads(res.Trace.Tapes[id])
 		}
 	case "C":
-		cfg := dcan.Config[E, S]{Seed: a.Seed, Prop: cs.prop(), Group: g, AC: ac}
+		cfg := dcan.Config[E, S]{Seed: a.Seed, Prop: cs.prop(), Group: g, AC: ac, ACs: acs}
 		var res *dcan.Result[E, S]
 		if cs.mode == "runner" {
 			res = canettiRunner(cfg)
@@ -275,7 +309,7 @@ func execute[E algebra.PrimeGroupElement[E, S], S algebra.PrimeFieldElement[S]](
 			rd.tapes[id] = r1reads(res.Trace.Tapes[id])
 		}
 	default:
-		res := ddeal.RunFull(ddeal.Config[E, S]{Seed: a.Seed, Prop: cs.prop(), Group: g, AC: ac})
+		res := ddeal.RunFull(ddeal.Config[E, S]{Seed: a.Seed, Prop: cs.prop(), Group: g, AC: acs[0]})
 		rd.trace, rd.ids, rd.shards = res.Trace, res.IDs, res.Shards
 		rd.tapes[0] = r1reads(res.Trace.Tapes[0])
 	}
@@ -286,6 +320,9 @@ func runCase[E algebra.PrimeGroupElement[E, S], S algebra.PrimeFieldElement[S]](
 	extra func(env kmEnv[E, S], cur, other *mpc.BaseShard[E, S]) []kmFail) *caseRun {
 	out := &caseRun{spec: cs, class: fmt.Sprintf("%s/%s/%c/%s/%s", cs.proto, cs.group, cs.pol.fam, cs.comp, cs.mode)}
 	caseText := cs.text()
+	if _, _, perms, perr := partyACs(a, cs); perr == nil && (cs.pol.fam == 'N' || cs.via == "cnf") {
+		caseText += " perms=" + perms // every party's clause order (derived from seed and idx; informative)
+	}
 	nonMono := cs.pol.hierNonMonotone()
 	prop := func(key, detail string) {
 		if nonMono {
@@ -331,7 +368,7 @@ func runCase[E algebra.PrimeGroupElement[E, S], S algebra.PrimeFieldElement[S]](
 		}
 		return e
 	}
-	ac, _ := cs.pol.build()
+	ac, _, _, _ := partyACs(a, cs)
 	scheme, err := feldman.NewScheme(g, ac)
 	if err != nil {
 		// the library refuses to induce an MSP for this structure (Tassa's conditions on IDs and field
@@ -863,6 +900,29 @@ func buildCases(a vh.Args, groups []*groupT) []caseSpec {
 			add(caseSpec{proto: "D", group: g.name, pol: pol, comp: "-", mode: "rounds"})
 		}
 	}
+	// CNF structures whose maximal unqualified sets differ only in the smallest member (every party lists
+	// the clauses in its own order), and 2-of-n through the conversion path cnf.ConvertToCNF
+	for pi, pol := range smallestMemberCNF() {
+		for gi, g := range useGroups {
+			if !thorough && gi != pi%len(useGroups) {
+				continue
+			}
+			if thorough || len(pol.holders()) <= 3 { // quick tier: Gennaro on the three-holder structures
+				add(caseSpec{proto: "G", group: g.name, pol: pol, comp: string(fiatshamir.Name), mode: "rounds"})
+			}
+			add(caseSpec{proto: "C", group: g.name, pol: pol, comp: "-", mode: "rounds"})
+			add(caseSpec{proto: "D", group: g.name, pol: pol, comp: "-", mode: "rounds"})
+		}
+	}
+	for n := 3; n <= 4; n++ {
+		g := useGroups[n%len(useGroups)]
+		pol := policy{fam: 'T', t: 2, ids: rangeIDs(1, n)}.mapIDs(assignIDs(n%3, n))
+		if thorough || n == 3 {
+			add(caseSpec{proto: "G", group: g.name, pol: pol, comp: string(fiatshamir.Name), mode: "rounds", via: "cnf"})
+		}
+		add(caseSpec{proto: "C", group: g.name, pol: pol, comp: "-", mode: "rounds", via: "cnf"})
+		add(caseSpec{proto: "D", group: g.name, pol: pol, comp: "-", mode: "rounds", via: "cnf"})
+	}
 	// Fischlin compilers (expensive provers): small structures
 	small := policy{fam: 'T', t: 2, ids: []uint64{1, 2}}
 	add(caseSpec{proto: "G", group: useGroups[0].name, pol: small.mapIDs(assignIDs(1, 2)), comp: string(fischlin.Name), mode: "rounds"})
@@ -903,7 +963,7 @@ func main() {
 		defer pprof.StopCPUProfile()
 	}
 	res := vh.NewResult("C03", a.Seed, a.Tier)
-	res.Rule = "honest runs of the real Gennaro DKG (Fiat-Shamir, Fischlin, randomised Fischlin), Canetti DKG and trusted dealer, round by round through CBOR (driver packages) and through the runner API over an in-memory delivery; access structures: threshold, unanimity, CNF, hierarchical, threshold-gate trees of sizes 2..4 (quick) / 2..8 (thorough) under three ID assignments (ordinal, sparse unsorted, >= 2^40), plus hierarchical structures with interleaved (non-monotone) IDs incl. arithmetic-progression patterns, which every flavour must refuse at construction; groups k256 + BLS12-381 G1 (quick) / all seven (thorough). Model (Dkg.v extracted) gets the recorded tapes and the induced MSP; compared: shares, verification vectors, public key, public shares, Gennaro broadcasts/unicasts, reconstruction over every subset, NewBaseShard on a shifted share. A case is non-trivial when the access structure was accepted and the protocol ran."
+	res.Rule = "honest runs of the real Gennaro DKG (Fiat-Shamir, Fischlin, randomised Fischlin), Canetti DKG and trusted dealer, round by round through CBOR (driver packages) and through the runner API over an in-memory delivery; access structures: threshold, unanimity, CNF, hierarchical, threshold-gate trees of sizes 2..4 (quick) / 2..8 (thorough) under three ID assignments (ordinal, sparse unsorted, >= 2^40), plus hierarchical structures with interleaved (non-monotone) IDs incl. arithmetic-progression patterns, which every flavour must refuse at construction; every party (and the dealer) builds its OWN access-structure object for the policy, CNF clause lists in a seeded per-party permutation, incl. CNFs whose maximal unqualified sets differ only in the smallest member and 2-of-n through cnf.ConvertToCNF; groups k256 + BLS12-381 G1 (quick) / all seven (thorough). Model (Dkg.v extracted) gets the recorded tapes and the induced MSP; compared: shares, verification vectors, public key, public shares, Gennaro broadcasts/unicasts, reconstruction over every subset, NewBaseShard on a shifted share. A case is non-trivial when the access structure was accepted and the protocol ran."
 	groups := allGroups()
 	byName := map[string]*groupT{}
 	for _, g := range groups {
